@@ -299,8 +299,12 @@ class CommandLineJob(Job):
         processbuilder.stdout = Redirect.file(self.stdout)
         self._process = processbuilder.start(True)
 
-        with self.pidpath.open("w") as fp:
+        # Write the PID file atomically: another scheduler (or a restarted
+        # one) must never read a created but not yet written file
+        tmppidpath = self.pidpath.with_suffix(".pid.tmp")
+        with tmppidpath.open("w") as fp:
             json.dump(self._process.tospec(), fp)
+        tmppidpath.replace(self.pidpath)
 
         self.state = JobState.RUNNING
         logger.info("Process started (%s)", self._process)
